@@ -439,6 +439,8 @@ func checkSignValidate(c *Ctx, tto *ssa.Function) {
 	}
 	checkPrevOutPerInput(c, "C06-R4")
 	checkUnlockHoldOnlyWhenUnlocked(c, "C06-R4")
+	checkExplicitInputsDistinct(c, "C06-R3")
+	checkInputValuesAreCoinAmounts(c, "C06-R4")
 	checkWatchOnlyAnswerFromKeyMaterial(c, "C06-R4")
 	checkExplicitInputsPassEligibility(c, "C06-R3")
 	checkNoStaleTailAfterInPlaceFilter(c, "C06-R3")
@@ -600,4 +602,160 @@ func checkUnlockHoldOnlyWhenUnlocked(c *Ctx, rule string) {
 		}
 	}
 	c.Floor(rule, "grants of the unlock hold", n, 1)
+}
+
+// checkExplicitInputsDistinct: a transaction funded from inputs the caller lists adds up what those inputs are worth;
+// an outpoint listed twice is one coin counted twice. Where a list of caller-supplied outpoints is turned into the credits
+// a fixed input source hands out (FundPsbt), each outpoint is first looked up in a set of the ones seen so far and the
+// "already seen" edge leaves with an error. (txToOutputs consumes its explicit selection from the eligible set, C06-R3.)
+func checkExplicitInputsDistinct(c *Ctx, rule string) {
+	p := c.P
+	fp := p.Func("wallet", "Wallet", "FundPsbt")
+	if fp == nil {
+		c.Unresolved(rule, "wallet.Wallet.FundPsbt")
+		return
+	}
+	isOutPointMap := func(t types.Type) bool {
+		m, ok := t.Underlying().(*types.Map)
+		if !ok {
+			return false
+		}
+		nm, ok := m.Key().(*types.Named)
+		return ok && nm.Obj().Name() == "OutPoint"
+	}
+	n := 0
+	for _, f := range p.regionOf(fp) {
+		for _, l := range loopsOf(f) {
+			// the loop that builds the credits: it stores OutPoint fields of the ranged inputs into Credit values
+			builds := l.containsInstr(func(ins ssa.Instruction) bool {
+				st, ok := ins.(*ssa.Store)
+				if !ok {
+					return false
+				}
+				fa, ok := st.Addr.(*ssa.FieldAddr)
+				if !ok {
+					return false
+				}
+				tn, fld := fieldAddrName(fa)
+				return tn == "Credit" && fld == "OutPoint"
+			})
+			if !builds {
+				continue
+			}
+			n++
+			// every iteration passes a comma-ok lookup in an OutPoint-keyed set whose "found" edge cannot reach the next
+			// iteration or a success return, and records the outpoint
+			var lk *ssa.Lookup
+			recorded := false
+			for b := range l.Blocks {
+				for _, ins := range b.Instrs {
+					switch x := ins.(type) {
+					case *ssa.Lookup:
+						if x.CommaOk && isOutPointMap(x.X.Type()) {
+							lk = x
+						}
+					case *ssa.MapUpdate:
+						if isOutPointMap(x.Map.Type()) {
+							recorded = true
+						}
+					}
+				}
+			}
+			ok := lk != nil && recorded
+			if ok {
+				if bad := l.MustPassPerIteration(p, func(ins ssa.Instruction) bool { return ins == ssa.Instruction(lk) }); bad != "" {
+					ok = false
+				}
+				for b := range l.Blocks {
+					for si := range b.Succs {
+						ef := edgeFactOf(b, si)
+						if ef == nil || ef.Kind != "true" {
+							continue
+						}
+						ex, isEx := ef.V.(*ssa.Extract)
+						if !isEx || ex.Tuple != ssa.Value(lk) || ex.Index != 1 {
+							continue
+						}
+						q := &PathQuery{Fn: f}
+						q.LoopExit = func(from, to *ssa.BasicBlock) bool { return to == l.Header }
+						q.Target = p.nonErrorReturn()
+						if len(exploreFromBlock(q, b.Succs[si], b)) > 0 {
+							ok = false
+						}
+					}
+				}
+			}
+			c.Check(rule, "explicit-inputs-distinct:"+outermost(f).Name(), l.Header.Instrs[0].Pos(), ok,
+				fnName(f)+" turns the caller's list of inputs into credits without refusing an outpoint that is listed twice: the coin's value is counted once per mention, so a packet naming one 1,000,000 sat coin twice is funded with outputs worth nearly 2,000,000 sat")
+		}
+	}
+	c.Floor(rule, "loops building credits from caller-supplied inputs", n, 1)
+}
+
+// appendedElems: the element values of an append(s, a, b...) call (stored into the call's varargs array).
+func appendedElems(call *ssa.Call) []ssa.Value {
+	if len(call.Call.Args) != 2 {
+		return nil
+	}
+	sl, ok := call.Call.Args[1].(*ssa.Slice)
+	if !ok {
+		return nil
+	}
+	al, ok := sl.X.(*ssa.Alloc)
+	if !ok {
+		return nil
+	}
+	var out []ssa.Value
+	for _, u := range usesOf(al) {
+		ia, ok := u.(*ssa.IndexAddr)
+		if !ok {
+			continue
+		}
+		for _, uu := range usesOf(ia) {
+			if st, ok := uu.(*ssa.Store); ok && st.Addr == ssa.Value(ia) {
+				out = append(out, st.Val)
+			}
+		}
+	}
+	return out
+}
+
+// checkInputValuesAreCoinAmounts: the input source hands the author, next to the inputs, the value of each input; the
+// signer commits to those values (segwit and taproot signatures cover the amount of the output being spent), and the
+// wallet's own post-signing validation uses the same list. Each value appended to that list is the Amount of a credit —
+// the same credit whose outpoint makes the input appended in that iteration. A running total (or any other amount) in
+// its place yields signatures that verify against the wallet's list and fail against the chain.
+func checkInputValuesAreCoinAmounts(c *Ctx, rule string) {
+	p := c.P
+	n := 0
+	for _, name := range []string{"makeInputSource", "constantInputSource"} {
+		top := p.Func("wallet", "", name)
+		if top == nil {
+			c.Unresolved(rule, "wallet."+name)
+			continue
+		}
+		for _, f := range p.regionOf(top) {
+			for _, ci := range callsOf(f) {
+				call, ok := ci.(*ssa.Call)
+				if !ok || calleeShort(&call.Call) != "append" {
+					continue
+				}
+				st, ok := call.Type().Underlying().(*types.Slice)
+				if !ok {
+					continue
+				}
+				nm, ok := st.Elem().(*types.Named)
+				if !ok || nm.Obj().Name() != "Amount" {
+					continue
+				}
+				for _, v := range appendedElems(call) {
+					n++
+					tn, fld, _, okf := fieldOf(stripConv(v))
+					c.Check(rule, "input-value-is-the-coin-amount:"+name, call.Pos(), okf && ((tn == "Credit" && fld == "Amount") || (tn == "TxOut" && fld == "Value")),
+						fnName(f)+" records as the value of an input something other than the Amount of the credit it spends: the signer commits to that value, so every segwit / taproot input after the first is signed for the wrong amount — the wallet's own check (same list) passes, the network rejects the transaction")
+				}
+			}
+		}
+	}
+	c.Floor(rule, "input values recorded by the input sources", n, 2)
 }
